@@ -36,7 +36,8 @@ DefectNames == {"optsize0",   \* OPT added by normalize carries size 0 and no DO
                 "ignorecfg",  \* UDP limit ignores the configured maximum
                 "keepanswer", \* TC set but the answer section kept
                 "kaalways",   \* keep-alive returned to clients that did not send it
-                "padplain"}   \* padding on plain TCP
+                "padplain",   \* padding on plain TCP
+                "dcpartial"}  \* DNSCrypt/TCP: only the library truncates near MAX and keeps a partial answer (pinned tree)
 
 Min2(a, b) == IF a < b THEN a ELSE b
 Max2(a, b) == IF a > b THEN a ELSE b
@@ -49,6 +50,11 @@ KAProto(p) == p \in {"dns-tcp", "dot"}                   \* RFC 7828: DNS over T
 \* Only the plain DNS server has a configured maximum (ConfigDNS.MaxUDPRespSize);
 \* ConfigDNSCrypt has none, i.e. its configured maximum is MAX.
 HasCfg(p) == p = "dns-udp"
+DNSCrypt(p) == p \in {"dnscrypt-udp", "dnscrypt-tcp"}
+\* The DNSCrypt library keeps DCReserve bytes (64) of the transport's limit for
+\* its encryption header when it truncates, so a DNSCrypt reply may be
+\* truncated although it is up to DCReserve below the limit.
+DCReserve == IF MIN >= 512 THEN 64 ELSE 1
 
 -----------------------------------------------------------------------------
 \* The contract.  sz is the advertised size (0 when the query has no OPT).
@@ -59,7 +65,8 @@ Limit(p, sz, cfg) == IF Udp(p) THEN Max2(MIN, Min2(sz, cfg)) ELSE MAX
      hrec, htc, hdo                               handler response: records (without OPT), TC, OPT with DO
      full        wire length the reply would have with every handler record and
                  the OPT/options the reply actually carries
-     sent, wire  a reply was written; its packed length
+     slack       bytes below the limit that the transport may keep free
+     sent, wire  the handler's reply (possibly truncated) was written; its packed length
      tc, an, rec TC bit, answer count, records kept in all sections (without OPT)
      opt, osize, over, odo, pad, ka               OPT of the reply                  *)
 OLimit(o) == Limit(o.p, IF o.qopt THEN o.qsize ELSE 0, o.cfg)
@@ -71,7 +78,7 @@ C_Trunc(o) == o.sent => /\ o.tc => o.an = 0
                         /\ o.rec < o.hrec => o.tc
                         /\ o.htc => o.tc
 \* records are dropped only when needed
-C_NoNeedless(o) == (o.sent /\ ~o.htc /\ o.full <= OLimit(o)) => (o.rec = o.hrec /\ ~o.tc)
+C_NoNeedless(o) == (o.sent /\ ~o.htc /\ o.full <= OLimit(o) - o.slack) => (o.rec = o.hrec /\ ~o.tc)
 C_OPT(o) == (o.sent /\ o.qopt) => /\ o.opt
                                   /\ o.osize = o.qsize
                                   /\ o.over = 0
@@ -102,9 +109,10 @@ MaxDNSSize(p, sz, cfg) ==
     IF ~Udp(p) THEN MAX
     ELSE IF D("ignorecfg") THEN Max2(sz, MIN) ELSE Max2(Min2(sz, cfg), MIN)
 
-\* dns.Msg.Truncate + truncate(): fixed = units that are always kept besides
-\* the header (the OPT record with its options).
-Trunc(h, fixed, limit) ==
+\* dns.Msg.Truncate followed by "drop the answers of a truncated message":
+\* fixed = units that are always kept besides the header (the OPT record with
+\* its options); keep = the answers of a truncated message are NOT dropped.
+TruncK(h, fixed, limit, keep) ==
     LET B  == Max2(limit - 1 - fixed, 0)
         fits == h.an + h.ns + h.ex <= B
         ka == Min2(h.an, B)
@@ -112,17 +120,25 @@ Trunc(h, fixed, limit) ==
         ke == IF ka = h.an /\ kn = h.ns THEN Min2(h.ex, B - ka - kn) ELSE 0
         tc == h.tc \/ ~fits
     IN [tc |-> tc,
-        an |-> IF fits THEN (IF tc /\ ~D("keepanswer") THEN 0 ELSE h.an)
-               ELSE (IF D("keepanswer") THEN ka ELSE 0),
+        an |-> IF fits THEN (IF tc /\ ~keep THEN 0 ELSE h.an)
+               ELSE (IF keep THEN ka ELSE 0),
         ns |-> IF fits THEN h.ns ELSE kn,
         ex |-> IF fits THEN h.ex ELSE ke]
+\* truncate() of normalize.go
+Trunc(h, fixed, limit) == TruncK(h, fixed, limit, D("keepanswer"))
+\* normalize() of the DNSCrypt library, applied to what the server hands to it:
+\* limit minus the reserve; only over UDP it empties the answer section.
+LibTrunc(p, t, fixed, limit) ==
+    IF DNSCrypt(p) THEN TruncK(t, fixed, limit - DCReserve, p = "dnscrypt-tcp") ELSE t
 
 B2N(b) == IF b THEN 1 ELSE 0
 
 Impl(p, q, cfg, h) ==
     IF ~q.opt
     THEN \* the handler's reply is truncated as it is (its own OPT, if any, stays)
-         LET t == Trunc(h, B2N(h.opt # "none"), MaxDNSSize(p, 0, cfg)) IN
+         LET lim == MaxDNSSize(p, 0, cfg)
+             own == IF p = "dnscrypt-tcp" /\ ~D("dcpartial") THEN lim - DCReserve ELSE lim
+             t   == LibTrunc(p, Trunc(h, B2N(h.opt # "none"), own), B2N(h.opt # "none"), lim) IN
          [sent |-> TRUE, tc |-> t.tc, an |-> t.an, ns |-> t.ns, ex |-> t.ex,
           opt |-> h.opt # "none", osize |-> IF h.opt = "none" THEN 0 ELSE MAX,
           over |-> IF h.opt = "v1do" THEN 1 ELSE 0, odo |-> h.opt = "v1do",
@@ -136,7 +152,9 @@ Impl(p, q, cfg, h) ==
              lim   == MaxDNSSize(p, q.size, cfg)
              \* options that are already in the OPT when the message is truncated
              pre   == 1 + (IF D("padafter") THEN 0 ELSE B2N(pad)) + (IF D("kaafter") THEN 0 ELSE B2N(ka))
-             t     == Trunc(h, pre, lim)
+             \* repaired: the DNSCrypt/TCP writer truncates to the library's size itself
+             own   == IF p = "dnscrypt-tcp" /\ ~D("dcpartial") THEN lim - DCReserve ELSE lim
+             t     == LibTrunc(p, Trunc(h, pre, own), pre, lim)
              wire  == 1 + t.an + t.ns + t.ex + 1 + B2N(pad) + B2N(ka)
              \* packWithPrefix refuses more than MAX bytes (TCP, DoT, DoQ);
              \* DoH and UDP pack without that guard.
@@ -152,6 +170,7 @@ Obs(p, q, cfg, h, r) ==
     [p |-> p, qopt |-> q.opt, qsize |-> q.size, qdo |-> q.do, qpad |-> q.pad, qka |-> q.ka, cfg |-> cfg,
      hrec |-> h.an + h.ns + h.ex, htc |-> h.tc, hdo |-> h.opt = "v1do",
      full |-> 1 + h.an + h.ns + h.ex + B2N(r.opt) + B2N(r.pad) + B2N(r.ka),
+     slack |-> IF DNSCrypt(p) THEN DCReserve ELSE 0,
      sent |-> r.sent, wire |-> Wire(r), tc |-> r.tc, an |-> r.an, rec |-> r.an + r.ns + r.ex,
      opt |-> r.opt, osize |-> r.osize, over |-> r.over, odo |-> r.odo, pad |-> r.pad, ka |-> r.ka]
 
